@@ -36,11 +36,21 @@ Definition flowobs_eqb (a b : flowobs) : bool :=
   Bool.eqb (fo_live a) (fo_live b) && Bool.eqb (fo_resp a) (fo_resp b) && Bool.eqb (fo_err a) (fo_err b)
   && Bool.eqb (fo_connect a) (fo_connect b) && Bool.eqb (fo_101 a) (fo_101 b).
 
+(* the environment contract and the closure fact the theorems assume, checked on every case in the model:
+   no stream ever handled an event outside the contract, and once everything is closed and idle every stream that
+   fired requestheaders has both sides finished *)
+Definition fired_reqheaders (s : stream) : bool := existsb (hook_eqb HkReqHeaders) (hooks s).
+Definition contract_ok (y : sys) : bool :=
+  forallb (fun p => negb (venv (fst p))) (streams y)
+  && (negb (settled y) || ended y || crashedS y
+      || forallb (fun p => negb (fired_reqheaders (fst p)) || is_some (pc (fst p)) || closed_s (fst p)) (streams y)).
+
 Definition check_case (c : case) : bool :=
   match c with
   | Run o pol dfr conn ops tr fl cn crash tun setl =>
       let y := run_ops (mk_env o pol dfr conn) ops in
       negb (nofuel y)
+      && contract_ok y
       && list_eqb ocmd_eqb (trace y) tr
       && list_eqb flowobs_eqb (obs_flows y) fl
       && Bool.eqb (crashedS y) crash
